@@ -45,7 +45,7 @@ def main():
         runs = meta.setdefault("runs", {})
         for pid in pids:
             t = time.time()
-            r = sh(f"cd {V} && timeout 3000 {PY} harness/check.py {pid} --tier quick", env=dict(env, JUMANJI_REPO=wt, VERIF_SEED=os.environ.get("VERIF_SEED", "0")))
+            r = sh(f"cd {V} && timeout 3000 {PY} harness/check.py {pid} --tier quick", env=dict(env, JUMANJI_REPO=wt, VERIF_SEED=os.environ.get("VERIF_SEED", "0"), VERIF_EVIDENCE_DIR="/tmp/seed_evidence"))
             lines = [ln for ln in r.stdout.split("\n") if re.match(r"VIOLATION|KNOWN-FINDING|\[C\d+\]|HARNESS|TIMEOUT", ln)]
             viol = [ln for ln in lines if ln.startswith("VIOLATION")]
             kinds = []
